@@ -38,6 +38,10 @@ type buildAction struct {
 	DockerOut bool     `json:",omitempty"`
 
 	OutputOf string `json:",omitempty"` // Get the output from a rule.
+
+	// For a file set: the listed files that are not plain source files,
+	// with the kind of node that bears the name.
+	FileNodes map[string]string `json:",omitempty"`
 }
 
 func makeDigest(t, name string, v interface{}) (string, error) {
